@@ -268,6 +268,7 @@ def _joins(model, rep):
     _join_coordinates(model, rep)
     _higher_order_surgery(model, rep)
     _tag_array_dtype(model, rep)
+    _oriented_container(model, rep)
 
 
 def _join_coordinates(model, rep):
@@ -340,6 +341,58 @@ def _join_coordinates(model, rep):
        f"are merged for a small mesh in large units or far from the origin "
        f"(cells collapse), or coincident ones are kept apart",
        calls[0].lineno)
+
+
+def _oriented_container(model, rep):
+    """An OrientedBoundary is an index array of facets with one flag per
+    facet (``ori``: on which side the designated cell lies).  ndarray
+    operations return a new array object that *inherits the parent's ori
+    unchanged* (__array_finalize__): after a permutation, reversal or subset
+    the flags belong to other facets, and FacetBasis takes normals and
+    traces from the wrong side without any error.  (a) The container must
+    index the flags with the key it indexes the facets with.  (b) The one
+    place where the library itself merges facet selections -
+    Mesh.normalize_facets, collection branch: np.unique(np.concatenate) -
+    must carry the flags along when a part is oriented (facets=['name'] is
+    an equivalent way of naming the set 'name')."""
+    R1 = "C18-R1"
+    cls = model.cls("skfem.generic_utils", "OrientedBoundary")
+    gi = cls.methods.get("__getitem__")
+    ok = False
+    if gi is not None and len(gi.params()) >= 2:
+        key = gi.params()[1]
+        ok = any(isinstance(n, ast.Assign) and isinstance(
+            n.targets[0], ast.Attribute) and n.targets[0].attr == "ori"
+            and isinstance(n.value, ast.Subscript)
+            and src(n.value.value) == "self.ori"
+            and src(n.value.slice) == key for n in ast.walk(gi.node))
+    _v(rep, R1, ok, "OrientedBoundary.__getitem__:flags-follow-facets",
+       "indexing the facets indexes the orientation flags with the same "
+       "key", "OrientedBoundary",
+       "OrientedBoundary defines no __getitem__ that indexes ori with the "
+       "key: ob[::-1], ob[perm] keep the parent's flags in the old order "
+       "(normals and traces from the wrong side, silently), ob[:5] keeps "
+       "all of them (IndexError in FacetBasis)", cls.node.lineno, cls.path)
+    nf = model.cls(MESH, "Mesh").methods["normalize_facets"]
+    merges = [c for c in ast.walk(nf.node) if isinstance(c, ast.Call)
+              and src(c.func) == "np.unique" and c.args and any(
+                  isinstance(x, ast.Call) and src(x.func) in (
+                      "np.concatenate", "np.hstack")
+                  for x in ast.walk(c.args[0]))]
+    if not merges:
+        raise AnalysisError("Mesh.normalize_facets: merge of a collection "
+                            "not found")
+    handles = any(isinstance(x, ast.Name) and x.id == "OrientedBoundary"
+                  for x in ast.walk(nf.node)) and any(
+        isinstance(x, ast.Attribute) and x.attr == "ori"
+        for x in ast.walk(nf.node))
+    _v(rep, R1, handles, "Mesh.normalize_facets:collection:oriented-parts",
+       "a collection with an oriented part yields an OrientedBoundary whose "
+       "flags follow their facets", "Mesh.normalize_facets",
+       "the collection branch merges its parts with np.unique("
+       "np.concatenate(...)) and never looks at their orientation: "
+       "FacetBasis(m, e, facets=['iface']) integrates over the other side "
+       "than facets='iface'", merges[0].lineno)
 
 
 def _tag_array_dtype(model, rep):
@@ -1110,6 +1163,12 @@ def run(model: Model, rep, tier: str) -> None:
 _QU = "skfem/mesh/mesh_quad_1.py"
 _HE = "skfem/mesh/mesh_hex_1.py"
 MUTANTS = [
+    ("oriented boundaries indexed without their flags",
+     ("skfem/generic_utils.py",
+      "            out.ori = self.ori[key]
+", "            pass
+"),
+     "C18-R1"),
     ("to_meshtri builds boundary tags without a dtype",
      (_QU, "self.boundaries[k])]],\n                    dtype=np.int32)",
       "self.boundaries[k])]])"), "C18-R1"),
